@@ -32,20 +32,21 @@ type qdg struct {
 // UDPConn is a simulated unconnected UDP socket. It replaces the
 // net.PacketConn returned by net.ListenPacket.
 type UDPConn struct {
-	w         *World
-	ID        int
-	local     *net.UDPAddr
-	bindIP    net.IP
-	q         []qdg
-	closed    bool
-	rdl       deadline
-	readers   []*simrt.Task
-	Foreign   bool // created by the harness
-	Created   time.Duration
-	ClosedAt  time.Duration
-	NSent     int
-	NRecv     int
-	WriteErrs int
+	w          *World
+	ID         int
+	local      *net.UDPAddr
+	bindIP     net.IP
+	q          []qdg
+	closed     bool
+	rdl        deadline
+	readers    []*simrt.Task
+	Foreign    bool // created by the harness
+	Created    time.Duration
+	CreatedSeq int
+	ClosedAt   time.Duration
+	NSent      int
+	NRecv      int
+	WriteErrs  int
 	// ReadLog lists, in order, the datagram copies returned by ReadFrom.
 	ReadLog []*DgramRec
 	// ReadSeqs/ReadAts: scheduler step and virtual time of each ReadLog entry.
@@ -122,6 +123,8 @@ func listenUDP(network string, la *net.UDPAddr, foreign bool) (*UDPConn, error) 
 	}
 	w.nextConn++
 	c := &UDPConn{w: w, ID: w.nextConn, local: &net.UDPAddr{IP: ip, Port: port, Zone: la.Zone}, bindIP: la.IP, Foreign: foreign, Created: simrt.Elapsed()}
+	w.EvSeq++
+	c.CreatedSeq = w.EvSeq
 	w.udpS[key(la.IP, la.Zone, port)] = c
 	w.Socks = append(w.Socks, c)
 	simrt.Log("udp:bind", int64(port), int64(c.ID))
@@ -162,7 +165,8 @@ func (c *UDPConn) ReadFromUDP(p []byte) (int, *net.UDPAddr, error) {
 			raceRead()
 			c.NRecv++
 			c.ReadLog = append(c.ReadLog, d.rec)
-			c.ReadSeqs = append(c.ReadSeqs, simrt.Steps())
+			c.w.EvSeq++
+			c.ReadSeqs = append(c.ReadSeqs, c.w.EvSeq)
 			c.ReadAts = append(c.ReadAts, simrt.Elapsed())
 			simrt.Log("udp:read", int64(c.ID), int64(n))
 			from := *d.from
